@@ -277,7 +277,13 @@ fn ob_c15_contract_min_max_at_pivot(min: usize, extent: usize, pivot: usize) {
     vassume!(min != 0);
     let mm = DepthMinMax { min: NonZeroUsize::new(min).unwrap(), extent };
     let r = mm.min_max_at_pivot(pivot);
-    vreplay_assert!(r.0 <= r.1, "C15 contract of min_max_at_pivot");
+    vreplay_assert!(
+        r.0 <= r.1
+            && (if min > pivot { r.0.checked_add(pivot) == Some(min) } else { r.0 == 0 })
+            && ((min as u128 + extent as u128) < pivot as u128
+                || r.1 as u128 + pivot as u128 == core::cmp::min(min as u128 + extent as u128, usize::MAX as u128)),
+        "C15 contract of min_max_at_pivot"
+    );
 }
 
 //@ob C15.canary
